@@ -431,11 +431,16 @@ func (c *RetryClient) Resubscribe(ctx context.Context) {
 		oldSubEstablished := append([]Subscription{}, c.subEstablished...)
 		c.subEstablished = nil
 
+		// Restore the established subscriptions ahead of the requests which are still queued.
+		// The queued requests (e.g. Unsubscribe) are newer than the established subscriptions.
+		oldRetryQueue := c.retryQueue
+		c.retryQueue = nil
 		if len(oldSubEstablished) > 0 {
 			for _, sub := range oldSubEstablished {
 				c.subscribe(ctx, true, cli, sub)
 			}
 		}
+		c.retryQueue = append(c.retryQueue, oldRetryQueue...)
 	})
 }
 
